@@ -53,6 +53,9 @@ CHECKS = {
  'C05': dict(cat='model_checking', engine='cbmc+irsym', technique='CBMC on the real table/loop functions (loop-shift selection with unwinding assertion, variable declaration limits at enumerated fill levels, compile result classification with a stub back end) and symbolic execution (irsym, LLVM IR) of the real front half of the compiler on programs at and beyond the load/store expansion limits',
              text='Termination and value of the loop-shift selection for every register/variable size; no table is written past its capacity and overruns are refused with an error; every result code is classified and fatal/non-fatal/successful results leave the stated state.',
              note='whole x86/NEON/MIPS/Altivec back ends are outside (the C01 family is compiled concretely with a watchdog); irsym detects out-of-bounds per object, member-to-member overflow through post-state invariants.', ref='DESIGN.md#c05'),
+ 'C08': dict(cat='model_checking', engine='evt', technique='own event-order SMT encoding (z3) of the real functions taken from clang LLVM IR: per-thread guarded memory events, integer clocks, read-from under SC, mutexes as atomic test-and-set; queries: exactly-once/visibility post-condition and C11 happens-before data race, for 2..4 threads',
+             text='The once protocol (both compiler-selectable variants), the wrappers orcc generates (built and run at check time), orc_init, and every pairing of the code allocator entry points are serialisable and race free for every interleaving of 2..3 (thorough 4) threads making one call each.',
+             note='SC interleavings + C11 hb races; loops in the allocator unrolled (2/3 back edges), heap abstracted to one location for the race query; compile/run bodies are opaque steps (their memory safety is C05/C09/C10); registries-written-only-in-init is assumed; Win32/no-atomics variants cannot be compiled here.', ref='DESIGN.md#c08'),
  'C15': dict(cat='model_checking', engine='cbmc', technique='CBMC two-program equivalence harnesses on the real directive handlers vs the construction API (symbolic sizes/alignments), symbolic-digit literal harnesses, opcode-line operand-order harnesses, relational formatting harnesses on tokenizer and line splitter',
              text='Per-line contracts: directive == API call, literal == its value, prefix/operand order kept, tokens and lines independent of blanks/comments/CR LF; whole-file equality by composition over lines.',
              note='unit contracts + composition argument, not an end-to-end parse(print(P)) query (does not finish in CBMC); float literal values are libc strtod.', ref='DESIGN.md#c15'),
@@ -86,6 +89,7 @@ def main():
                         baseline_off_cmd='meson test -C /repo/_build', source_commits=HOOK_COMMITS, add_only=True),
              engines=[dict(name='cbmc', path='lib/cbmc.py', serves_properties=[p for p in props if CHECKS.get(p, {}).get('engine', '').find('cbmc') >= 0], kind_free_text='CBMC 6.11 bounded model checking of goto-cc builds of the real translation units'),
                       dict(name='irsym', path='engines/irsym', serves_properties=[p for p in props if 'irsym' in CHECKS.get(p, {}).get('engine', '')], kind_free_text='own symbolic executor for LLVM IR (clang -O1) with z3'),
+                      dict(name='evt', path='engines/evt.py', serves_properties=[p for p in props if 'evt' in CHECKS.get(p, {}).get('engine', '')], kind_free_text='own event-order (partial-order) SMT encoder for bounded thread interleavings of functions taken from LLVM IR'),
                       dict(name='x86sym', path='engines/x86sym', serves_properties=[p for p in props if 'x86sym' in CHECKS.get(p, {}).get('engine', '')], kind_free_text='own symbolic executor for the x86-64 machine code Orc emits (objdump decode, z3)'),
                       ],
              checks=checks, not_applicable=na,
